@@ -205,3 +205,12 @@ Theorem C04_period_select : forall (labels : list val) (u : tunit) (c : Z),
     increasing ps.
 Proof. exact period_select. Qed.
 Print Assumptions C04_period_select.
+
+(* select, then select by label on the result: the index of the derived container is constructed WITHOUT
+   loc_is_iloc (re-read from Index._extract_iloc on every run), so its labels are looked up in its own
+   dictionary -- the model decision derived_kind the api:select-then-loc stratum evaluates *)
+Theorem C04_derived_index_has_dictionary :
+  derived_index_passes_loc_is_iloc_src = false /\
+  forall (is_frame : bool) (k : ckey) (src : axkind), is_all k = false -> derived_kind is_frame k src = KMap.
+Proof. exact derived_index_has_dictionary. Qed.
+Print Assumptions C04_derived_index_has_dictionary.
